@@ -218,6 +218,11 @@ class ExcFlow:
                     return self._reraised(cfg, [hid])
         d = dotted(e)
         if d is None:
+            # `raise TABLE.get(code, DefaultError)(stage)` / `raise TABLE[code](stage)` over a module-level dict of classes
+            if isinstance(e, (ast.Call, ast.Subscript)):
+                tc = self._lookup_classes(f, e)
+                if tc:
+                    return tc
             return {"Exception"}
         r = self.prog.resolve_dotted(f.module, d)
         r = EXC_ALIASES.get(r, r)
@@ -247,6 +252,36 @@ class ExcFlow:
             tc = self._table_classes(f, e.id)
             return tc if tc else {"Exception"}
         return {r}
+
+    def _lookup_classes(self, f, v) -> set[str]:
+        """classes a look-up `TABLE.get(k)` / `TABLE.get(k, Default)` / `TABLE[k]` in a module-level dict of classes can give"""
+        tab, dflt = None, None
+        if isinstance(v, ast.Call) and isinstance(v.func, ast.Attribute) and v.func.attr == "get" and 1 <= len(v.args) <= 2 and not v.keywords:
+            tab = v.func.value
+            dflt = v.args[1] if len(v.args) == 2 else None
+        elif isinstance(v, ast.Subscript):
+            tab = v.value
+        d = dotted(tab) if tab is not None else None
+        if d is None:
+            return set()
+        r = self.prog.resolve_dotted(f.module, d)
+        parts = r.rsplit(".", 1)
+        if not (len(parts) == 2 and parts[0] in self.prog.modules and parts[1] in self.prog.modules[parts[0]].assigns):
+            return set()
+        lits = self.prog.modules[parts[0]].assigns[parts[1]]
+        if len(lits) != 1 or not isinstance(lits[0], ast.Dict):
+            return set()
+        m = self.prog.modules[parts[0]]
+        out: set[str] = set()
+        cells = [(m, dv) for dv in lits[0].values] + ([(f.module, dflt)] if dflt is not None and not (isinstance(dflt, ast.Constant) and dflt.value is None) else [])
+        for mod_, dv in cells:
+            dd = dotted(dv)
+            rr = self.prog.resolve_dotted(mod_, dd) if dd else None
+            rr = EXC_ALIASES.get(rr, rr) if rr else None
+            if not rr or not (rr in self.prog.classes or self.prog.known_class(rr)):
+                return set()
+            out.add(rr)
+        return out
 
     def _table_classes(self, f, name: str, _depth: int = 0) -> set[str]:
         from .loader import walk_own as _walk_own
@@ -299,6 +334,13 @@ class ExcFlow:
                     out.add(rr)
                     vals.remove(v)
                     continue
+                # `exc_class(message)` where exc_class is a local that holds a class (the parameter of an inlined error factory)
+                if isinstance(v.func, ast.Name) and v.func.id != name and not v.func.id[:1].isupper() and _depth < 4:
+                    sub = self._table_classes(f, v.func.id, _depth + 1)
+                    if sub:
+                        out |= sub
+                        vals.remove(v)
+                        continue
             if isinstance(v, ast.Constant) and v.value is None:
                 vals.remove(v)  # the initial `result = None` of an inlined helper
                 continue
@@ -320,29 +362,10 @@ class ExcFlow:
                     continue
                 return set()
         for v in vals:
-            tab = None
-            if isinstance(v, ast.Call) and isinstance(v.func, ast.Attribute) and v.func.attr == "get" and len(v.args) == 1:
-                tab = v.func.value
-            elif isinstance(v, ast.Subscript):
-                tab = v.value
-            d = dotted(tab) if tab is not None else None
-            if d is None:
+            sub = self._lookup_classes(f, v)
+            if not sub:
                 return set()
-            r = self.prog.resolve_dotted(f.module, d)
-            parts = r.rsplit(".", 1)
-            if not (len(parts) == 2 and parts[0] in self.prog.modules and parts[1] in self.prog.modules[parts[0]].assigns):
-                return set()
-            lits = self.prog.modules[parts[0]].assigns[parts[1]]
-            if len(lits) != 1 or not isinstance(lits[0], ast.Dict):
-                return set()
-            m = self.prog.modules[parts[0]]
-            for dv in lits[0].values:
-                dd = dotted(dv)
-                rr = self.prog.resolve_dotted(m, dd) if dd else None
-                rr = EXC_ALIASES.get(rr, rr) if rr else None
-                if not rr or not (rr in self.prog.classes or self.prog.known_class(rr)):
-                    return set()
-                out.add(rr)
+            out |= sub
         return out
 
     def _module_table(self, f, it: ast.AST):
